@@ -181,7 +181,7 @@ def propagate_dft(wavefront, pixelscale, shape=None, prop_shape=None,
 
     if mask is not None:
         mask = np.asarray(mask)
-        if np.all(mask.shape != shape_out):
+        if np.any(mask.shape != shape_out):
             raise ValueError(f'shape mismatch: mask shape {mask.shape} != output shape {tuple(shape_out)}')
         mask_shape = _mask_shape(mask, threshold=0)
         mask_shift = _mask_shift(mask, threshold=0)
